@@ -267,22 +267,37 @@ func (_this *Reader) readSmallULEB128(name string, maxValue uint64) uint64 {
 }
 
 func (_this *Reader) readIntoBuffer(count int) {
-	_this.expandBufferTo(count)
-	dst := _this.buffer[:count]
-	for len(dst) > 0 {
+	// Don't trust the declared length: grow the buffer only as fast as data
+	// actually arrives, so that a short document declaring a huge field
+	// cannot make us allocate more than a small multiple of its real size.
+	bytesFilled := 0
+	for bytesFilled < count {
+		if bytesFilled == len(_this.buffer) {
+			_this.expandBufferTo(minInt(count, len(_this.buffer)*2), bytesFilled)
+		}
+		dst := _this.buffer[bytesFilled:minInt(count, len(_this.buffer))]
 		if bytesRead, err := _this.reader.Read(dst); err != nil {
 			_this.unexpectedError(err)
 		} else {
 			_this.markBytesRead(bytesRead)
-			dst = dst[bytesRead:]
+			bytesFilled += bytesRead
 		}
 	}
 }
 
-func (_this *Reader) expandBufferTo(minSize int) {
+func (_this *Reader) expandBufferTo(minSize int, bytesToKeep int) {
 	if len(_this.buffer) < minSize {
-		_this.buffer = make([]byte, minSize*2)
+		newBuffer := make([]byte, minSize)
+		copy(newBuffer, _this.buffer[:bytesToKeep])
+		_this.buffer = newBuffer
 	}
+}
+
+func minInt(a, b int) int {
+	if a < b {
+		return a
+	}
+	return b
 }
 
 func (_this *Reader) unexpectedError(err error) {
